@@ -63,6 +63,10 @@ def gen_opts(rng, allow_paths=False, case_no=None):
         opts["exclude"] = EXCLUDE_SETS[(case_no // 3) % len(EXCLUDE_SETS)]
     if case_no is not None and case_no % 3 == 1:
         opts["lstrip"] = LSTRIP_SETS[(case_no // 3) % len(LSTRIP_SETS)]
+    if case_no is not None and case_no % 6 == 2:
+        # plain options, and the tree gets its directory links (an alias of a directory; a link whose target's path is a
+        # string prefix of its host's) - in every run
+        opts.update(exclude=None, lstrip=None, paths=None, dir_links=True)
     if rng.random() < 0.3:
         opts["base"] = True
     return opts
@@ -242,11 +246,11 @@ class Honest:
             if isinstance(opts["paths"], list) and "tools" not in opts["paths"]:
                 opts["paths"] = opts["paths"] + ["tools"]
         plist = list(opts["paths"]) if opts["paths"] else ["."]
-        if present and rng.random() < 0.3 and not opts["exclude"]:
+        if present and (rng.random() < 0.3 or opts.get("dir_links")) and not opts["exclude"]:
             # (not with custom exclude patterns: a directory link would make an excluded file reachable under a
             # second, not excluded, name, and the history would no longer be an honest one)
             os.symlink(sorted(present)[0].split("/")[0], os.path.join(self.work, "alias"))
-        if present and rng.random() < 0.3 and not opts["exclude"] and not opts["lstrip"] and not opts["paths"]:
+        if present and (rng.random() < 0.3 or opts.get("dir_links")) and not opts["exclude"] and not opts["lstrip"] and not opts["paths"]:
             # a directory link whose target's path is a string prefix of the path of the directory it lies in
             # (lib64/shared -> ../lib): no cycle, and everything behind it belongs to the recording
             d0 = sorted(present)[0].split("/")[0]
